@@ -137,3 +137,41 @@ Example C09_nonvacuous_late_dependencies :
   filter (cli_store d m st) [1; 2; 3; 4; 5; 6]%positive = [2; 4]%positive /\
   exec_log d (cli_store d m st) = [3; 5; 1; 6]%positive.
 Proof. vm_compute. repeat split; reflexivity. Qed.
+
+(* ---- (e'), with the N-worker execution protocol (Model/Exec.v) in place of the sequential execute above ------
+   [C] any configuration of the protocol whose dependency lists are the graph's; [r] a sound store of results of
+   the jugfile; the invalidated results are removed ([kept d m t] = t is not in [cli_invalid d m]); then EVERY
+   quiet run of any number of workers calls the function of no task that kept its result (its value stays) and
+   calls the function of an invalidated task exactly once if it ends up stored again. *)
+From JugV Require Import Model.MapReduce Model.Slice Model.Deps Model.Exec Model.ExecCase Model.ExecExample
+  Proofs.ExecFacts Proofs.ExecTheorems Proofs.ExecInvalidateFacts.
+
+Theorem C09_workers_rerun_exactly_the_invalidated : forall (V : Type) (C : cfg V), framed C ->
+  forall d : dag, wf_dag d ->
+  (forall n x, In n d -> (In x (c_deps C (n_tid n)) <-> In x (n_deps n))) ->
+  forall (m : matcher) (r : tid -> option V), Sound C r -> (forall t, r t <> None -> In t (tids d)) ->
+  forall tr s, forallb quiet tr = true ->
+  run C (init (fun t => if kept d m t then r t else None)) tr = Some s ->
+  forall t, (~ In t (cli_invalid d m) -> r t <> None -> execs s t = 0 /\ results s t = r t) /\
+            (In t (cli_invalid d m) -> results s t <> None -> execs s t = 1).
+Proof. exact (@invalidate_then_execute). Qed.
+Print Assumptions C09_workers_rerun_exactly_the_invalidated.
+
+(* non-vacuity: the three-task chain of Model/ExecExample.v, all results present, `jug invalidate` of the
+   middle function: tasks 2 and 3 lose their results; a worker then finds 1 loadable and calls f2 and f3 once *)
+Example C09_workers_nonvacuous :
+  let d : dag := [(1, 10, []); (2, 11, [1]); (3, 12, [1; 2])]%positive in
+  let m : matcher := fun nm => Pos.eqb nm 11 in
+  let C := prog_cfg ex_prog in
+  let r := Deps.st_of [(1, ex_v1); (2, ex_v2); (3, ex_v3)]%positive in
+  let tr := [ ECanLoad 0%nat 1 true; ELock 0%nat 2 true; ECanLoad 0%nat 2 false; ELoad 0%nat 1 ex_v1; EStart 0%nat 2;
+              ERet 0%nat 2 ex_v2; EDump 0%nat 2 ex_v2; EUnlock 0%nat 2;
+              ELock 0%nat 3 true; ECanLoad 0%nat 3 false; ELoad 0%nat 2 ex_v2; EStart 0%nat 3;
+              ERet 0%nat 3 ex_v3; EDump 0%nat 3 ex_v3; EUnlock 0%nat 3; EExit 0%nat 0%nat ]%positive in
+  wf_dagb d = true /\ cli_invalid d m = [2; 3]%positive /\
+  forallb (fun n => seteq_b (c_deps C (n_tid n)) (n_deps n)) d = true /\
+  forallb quiet tr = true /\
+  exists s, run C (init (fun t => if kept d m t then r t else None)) tr = Some s /\
+            map (execs s) [1; 2; 3]%positive = [0; 1; 1] /\
+            map (results s) [1; 2; 3]%positive = [Some ex_v1; Some ex_v2; Some ex_v3].
+Proof. vm_compute. repeat split; try reflexivity. eexists. repeat split; reflexivity. Qed.
